@@ -934,7 +934,7 @@ type result struct {
 	kind     string // "ok", "err <k>", "panic"
 	partial  bool
 	cold     bool
-	total    int
+	total    uint64
 	nerr     int
 	ids      []id2
 	hosts    []string // answering host per id
@@ -1002,7 +1002,7 @@ func runCase(c tcase) result {
 		}
 		res.kind = "ok"
 		res.partial = k == "partial"
-		res.total, res.nerr = int(qpr.Total), len(qpr.Errors)
+		res.total, res.nerr = qpr.Total, len(qpr.Errors)
 		for _, x := range qpr.IDs {
 			res.ids = append(res.ids, id2{uint64(x.ID.MID), uint64(x.ID.RID)})
 			res.hosts = append(res.hosts, inv[x.Source])
@@ -1529,6 +1529,12 @@ func smallCases(r *vh.RNG, thorough bool) []tcase {
 	coldHalf := [][]call{{{kind: 'r', code: 'n', total: 1, ids: []id2{{7, 1}}}}, {{kind: 'f'}}}
 	coldBad := [][]call{{{kind: 'f'}}, {{kind: 'f'}, {kind: 'f'}}}
 	var res []tcase
+	// the same IDs on two shards with totals smaller than the number of repetitions: the uint64 total wraps
+	dupIDs := []id2{{9, 1}, {5, 1}, {3, 1}}
+	for _, tt := range [][2]int{{1, 0}, {2, 0}, {1, 1}, {3, 3}, {0, 0}} {
+		res = append(res, tcase{hot: [][]call{{{kind: 'r', code: 'n', total: tt[0], ids: dupIDs}}, {{kind: 'r', code: 'n', total: tt[1], ids: dupIDs}}},
+			size: 5, wh: -1, wc: -1, fb: map[string]string{}})
+	}
 	sa, sb := seqs(alphaA, 2), seqs(alphaB, 2)
 	for _, a := range sa[1:] {
 		for _, b := range sb[1:] {
